@@ -267,7 +267,7 @@ func checkWire(it *proto.RTItem, r *proto.RTResult) []proto.Issue {
 	return out
 }
 
-var FW = &proto.RTFamily{ID: "C17", Gen: genWire}
+var FW = &proto.RTFamily{ID: "C17", Gen: genWire, SecondEvery: 2}
 
 func init() {
 	FW.Check = checkWire
